@@ -36,6 +36,10 @@ type Template struct {
 	tokens []*Token
 	parser *Parser
 
+	// Number of include, extends, import and ssi tags between a template the
+	// application asked for (0) and this one
+	depth int
+
 	// first come, first serve (it's important to not override existing entries in here)
 	level          int
 	parent         *Template
@@ -56,6 +60,12 @@ func newTemplateString(set *TemplateSet, tpl []byte) (*Template, error) {
 }
 
 func newTemplate(set *TemplateSet, name string, isTplString bool, tpl []byte) (*Template, error) {
+	return newNestedTemplate(set, name, isTplString, tpl, 0)
+}
+
+// newNestedTemplate creates a template that is pulled in by other templates
+// through the given number of include, extends, import and ssi tags.
+func newNestedTemplate(set *TemplateSet, name string, isTplString bool, tpl []byte, depth int) (*Template, error) {
 	strTpl := string(tpl)
 
 	// Create the template
@@ -68,6 +78,7 @@ func newTemplate(set *TemplateSet, name string, isTplString bool, tpl []byte) (*
 		blocks:         make(map[string]*NodeWrapper),
 		exportedMacros: make(map[string]*tagMacroNode),
 		Options:        newOptions(),
+		depth:          depth,
 	}
 	// Copy all settings from another Options.
 	t.Options.Update(set.Options)
